@@ -29,6 +29,17 @@ for sid in sorted(os.listdir(f"{ROOT}/seeded")):
             rc, out = sh(f"./check {cid} {tier}", ROOT)
             first = next((l for l in out.splitlines() if l.startswith("FAIL ")), "")
             caught[cid] = {"exit": rc, "first_failure": first[:300]}
+            # keep the shrunk counterexample as a committed regression input of that property
+            if rc == 1:
+                for l in out.splitlines():
+                    if l.startswith("VIOLATION ") and "/replays/" in l:
+                        src = l.split("replay=")[1].strip()
+                        dst = f"{ROOT}/regressions/{cid}"
+                        os.makedirs(dst, exist_ok=True)
+                        if os.path.exists(src) and os.path.getsize(src) < 200_000:
+                            import shutil
+                            shutil.copy(src, f"{dst}/{sid}.json")
+                        break
             print(sid, cid, rc, first[:160], flush=True)
     finally:
         sh("git checkout -- .", "/repo")
